@@ -26,3 +26,45 @@ CHECKS = {
         ],
     },
 }
+
+MUX = [G + "mux_run.go", G + "mux_stubs.go"]
+MUX_STUBS = [
+    "mediacommon boundary stubbed (trusted: its Marshal/Unmarshal are mutually inverse): fmp4.Part/Init.Marshal+Unmarshal, PartSample.FillH264, "
+    "h264.DTSExtractor (dts = pts - harness offset), mpegts.Writer.*, h264.SPS parser",
+    "playlist text layer bypassed in the bounded runs (struct captured at Marshal, handed back at Unmarshal); the text layer is C14/C15",
+    "targetDuration / partTargetDuration replaced by integer summaries proven equal to the real float code by lemma.targetDuration / lemma.partTarget (C03) on the range asserted at each use",
+    "findCompatiblePartDuration returns an arbitrary value in [PartMinDuration, 5 s] in Low-Latency runs (its real result is C19's subject)",
+    "one writer goroutine, requests issued between writes (concurrency is C06-C08)",
+]
+
+
+def mux_runs(quick_k=(4, 4, 3, 4), thorough_k=(6, 6, 4, 5)):
+    def run(name, variant, tracks, kq, kt, reach, **extra):
+        r = {"name": name, "files": MUX, "fn": "VerifH_mux_run", "workers": 16,
+             "params": {"VARIANT": variant, "TRACKS": tracks}, "params_quick": {"K": kq}, "params_thorough": {"K": kt},
+             "reach": reach, "budget_quick": 900, "budget_thorough": 7200}
+        r["params"].update(extra)
+        return r
+    return [
+        run("run.mux.fmp4.video", 2, 0, quick_k[0], thorough_k[0], ["end", "cut", "observe", "decode-segment", "init-after-change"]),
+        run("run.mux.ts.video", 1, 0, quick_k[1], thorough_k[1], ["end", "cut", "observe", "decode-segment"]),
+        run("run.mux.ll.video", 3, 0, quick_k[2], thorough_k[2], ["end", "cut", "observe", "decode-segment"]),
+        run("run.mux.fmp4.video+audio", 2, 1, quick_k[3], thorough_k[3], ["end", "cut", "observe", "decode-segment"]),
+    ]
+
+
+MUX_BOUNDS = {
+    "quick": {"writes per run": "K=4 (fMP4, MPEG-TS, fMP4 video+audio), K=3 (Low-Latency)", "first DTS": "[-10 s, 2^33] ticks", "DTS delta": "[0, 2^21] ticks video, [0, 2^20] audio",
+              "SegmentMinDuration": "symbolic in [1 ms, 4 s]", "access unit kinds": "IDR / non-IDR / IDR with changed PPS", "SegmentCount": "3 (7 in Low-Latency)", "storage": "RAM"},
+    "thorough": {"writes per run": "K=6 (fMP4, MPEG-TS), K=4 (Low-Latency), K=5 (video+audio)", "first DTS": "[-10 s, 2^33] ticks", "DTS delta": "[0, 2^21] / [0, 2^20] ticks",
+                 "SegmentMinDuration": "symbolic in [1 ms, 4 s]", "access unit kinds": "IDR / non-IDR / IDR with changed PPS", "SegmentCount": "3 (7 in Low-Latency)", "storage": "RAM"},
+}
+
+MUX_OUTSIDE = ["byte-level MP4 / MPEG-TS encoding (mediacommon)", "histories longer than K writes (covered by the step harnesses where registered)",
+               "H265 / VP9 / AV1 / Opus write paths", "pts != dts", "disk storage in the bounded runs"]
+
+for pid, tech in [("C01", "ghost list of accepted units vs decoded fragments"), ("C02", "specification cut rule vs observed rotations; init contents"),
+                  ("C03", "durations / targets / date-times of every served playlist vs ghost segments"),
+                  ("C04", "relation between consecutive served playlists"), ("C05", "every listed URI fetched through the real handlers"),
+                  ("C18", "window size, expired URIs, segment size limit")]:
+    CHECKS[pid] = {"technique": tech, "bounds": MUX_BOUNDS, "assumptions": MUX_STUBS, "outside": MUX_OUTSIDE, "runs": mux_runs()}
